@@ -51,3 +51,19 @@ void harness_is_valid_name(void) {
     else POST(SPEC_VALID_NAME(in.str, in.len, in.flag & 1, in.cp, r), "C09 name accepted exactly when it meets the validity rules");
     if (r) REACH("valid"); else REACH("invalid");
 }
+
+/* ---- cif_unicode_normalize: buffer management around ICU, under failing allocations (C16 / C17 / C09) -------------------- */
+struct in_norm { UChar str[MAXN]; size_t len; int32_t srclen; int32_t norm_len; int norm_fail; int terminate; };
+DECL_IN(in_norm)
+void harness_unicode_normalize(void) {
+    struct in_norm in = GET_IN(in_norm);
+    PRE(IN_IS_USTR(in));
+    PRE(in.norm_len >= 0 && in.norm_len < MAXN - 1 && (in.srclen < 0 || (size_t)in.srclen <= in.len));
+    g_len = in.len; g_norm_len = in.norm_len; g_norm_fail = in.norm_fail;
+    UChar *out = NULL; int32_t outlen = -7;
+    int r = cif_unicode_normalize(in.str, in.srclen, UNORM_NFC, &out, &outlen, in.terminate);
+    POST(r == CIF_OK || r == CIF_MEMORY_ERROR || r == CIF_ERROR, "C17 cif_unicode_normalize returns OK, MEMORY_ERROR or ERROR");
+    if (r == CIF_OK) { POST(out != NULL && outlen == in.norm_len, "C09 normalised buffer and length handed out"); REACH("normalised"); free(out); }
+    else { POST(out == NULL && outlen == -7, "C17 failed normalisation leaves the outputs untouched"); REACH("norm-failed"); }
+    /* nothing may remain allocated here: --memory-leak-check */
+}
